@@ -1761,6 +1761,13 @@ func (self *Fork) expandForkFromObj(
 			return nil, nil
 		}
 		if len(keys) == 1 {
+			if len(self.node.forks)-1 > self.index {
+				// Other forks of this node share the undetermined
+				// part.  Their maps may have different keys.
+				pc := *part
+				part = &pc
+				self.forkId[i] = part
+			}
 			part.Id = mapKeyFork(keys[0])
 			self.updateId(self.forkId)
 			return nil, nil
